@@ -1,5 +1,6 @@
 import ParryModel.Field
 import ParryModel.C19.ModelAcc
+import ParryModel.C19.LemmasExt
 /-!
 # C19 theorems, part 5 (round fu4): the acceleration structure and the orientation of a SCALED composite shape
 
@@ -248,5 +249,103 @@ theorem stale_normal_refuted :
       ((scalePt s p).sub (scalePt s a)).dot (triNormal a b c) < 0 := by
   simp only [triNormal, scalePt, V3.cmul, V3.sub, V3.cross, V3.dot]
   norm_num
+
+/-! ### routing of `Shape::scale_dyn` -/
+
+private theorem neqb (a b : K) : letI := fieldNum K sq; (!(neq a b)) = true ↔ a ≠ b := by
+  letI := fieldNum K sq
+  rw [Bool.not_eq_true', ← Bool.not_eq_true, neq_iff sq]
+
+/-- a ball stays a `Ball` exactly under a uniform scale (any sign); otherwise it becomes a convex polyhedron -/
+theorem scaleDynKind_ball_iff (s : V3 K) :
+    letI := fieldNum K sq
+    scaleDynKind s .ball = .ball ↔ (s.x = s.y ∧ s.x = s.z) := by
+  letI := fieldNum K sq
+  simp only [scaleDynKind]
+  split_ifs with h
+  · simp only [Bool.or_eq_true, neqb sq] at h
+    simp only [reduceCtorEq, false_iff, not_and]
+    intro hxy hxz
+    rcases h with (h | h) | h
+    · exact h hxy
+    · exact h hxz
+    · exact h (hxy.symm.trans hxz)
+  · simp only [Bool.or_eq_true, neqb sq, not_or, not_not] at h
+    simp only [true_iff]
+    exact ⟨h.1.1, h.1.2⟩
+
+/-- a capsule stays a `Capsule` exactly under a uniform scale -/
+theorem scaleDynKind_capsule_iff (s : V3 K) :
+    letI := fieldNum K sq
+    scaleDynKind s .capsule = .capsule ↔ (s.x = s.y ∧ s.x = s.z) := by
+  letI := fieldNum K sq
+  simp only [scaleDynKind]
+  split_ifs with h
+  · simp only [Bool.or_eq_true, neqb sq] at h
+    simp only [reduceCtorEq, false_iff, not_and]
+    intro hxy hxz
+    rcases h with (h | h) | h
+    · exact h hxy
+    · exact h hxz
+    · exact h (hxy.symm.trans hxz)
+  · simp only [Bool.or_eq_true, neqb sq, not_or, not_not] at h
+    simp only [true_iff]
+    exact ⟨h.1.1, h.1.2⟩
+
+/-- a (round) cylinder stays a (round) cylinder exactly when `scale.x = scale.z` (any `scale.y`, any sign) -/
+theorem scaleDynKind_cyl_iff (s : V3 K) :
+    letI := fieldNum K sq
+    (scaleDynKind s .cyl = .cyl ↔ s.x = s.z) ∧ (scaleDynKind s .rcyl = .rcyl ↔ s.x = s.z) := by
+  letI := fieldNum K sq
+  simp only [scaleDynKind]
+  constructor <;>
+  · split_ifs with h
+    · rw [neqb sq] at h
+      simp only [reduceCtorEq, false_iff]; exact h
+    · rw [neqb sq, not_not] at h
+      simp only [true_iff]; exact h
+
+/-- a (round) cone stays a (round) cone exactly when `scale.x = scale.z` and `scale.y ≥ 0` -/
+theorem scaleDynKind_cone_iff (s : V3 K) :
+    letI := fieldNum K sq
+    (scaleDynKind s .cone = .cone ↔ (s.x = s.z ∧ 0 ≤ s.y)) ∧ (scaleDynKind s .rcone = .rcone ↔ (s.x = s.z ∧ 0 ≤ s.y)) := by
+  letI := fieldNum K sq
+  simp only [scaleDynKind]
+  constructor <;>
+  · split_ifs with h
+    · simp only [Bool.or_eq_true, neqb sq, decide_eq_true_eq] at h
+      simp only [reduceCtorEq, false_iff, not_and, not_le]
+      intro hxz
+      rcases h with h | h
+      · exact absurd hxz h
+      · exact h
+    · simp only [Bool.or_eq_true, neqb sq, decide_eq_true_eq, not_or, not_not, not_lt] at h
+      simp only [true_iff]; exact h
+
+/-- every other variant comes back as the same variant, whatever the scale -/
+theorem scaleDynKind_fixed (s : V3 K) :
+    letI := fieldNum K sq
+    scaleDynKind s .cuboid = .cuboid ∧ scaleDynKind s .seg = .seg ∧ scaleDynKind s .tri = .tri ∧ scaleDynKind s .hs = .hs ∧
+    scaleDynKind s .polyh = .polyh ∧ scaleDynKind s .trimesh = .trimesh ∧ scaleDynKind s .polyline = .polyline ∧
+    scaleDynKind s .hf = .hf ∧ scaleDynKind s .rcuboid = .rcuboid ∧ scaleDynKind s .rtri = .rtri ∧ scaleDynKind s .rpolyh = .rpolyh := by
+  simp only [scaleDynKind, and_self]
+
+/-- a compound comes back as a compound with the same number of parts, each part routed on its own -/
+theorem scaleDynKind_compound (s : V3 K) (ps : List Kind3) :
+    letI := fieldNum K sq
+    ∃ qs, scaleDynKind s (.compound ps) = .compound qs ∧ qs.length = ps.length ∧
+      ∀ (i : Nat) (p : Kind3), ps[i]? = some p → qs[i]? = some (scaleDynKind s p) := by
+  letI := fieldNum K sq
+  refine ⟨scaleDynKinds s ps, by simp only [scaleDynKind], ?_, ?_⟩
+  · induction ps with
+    | nil => simp [scaleDynKinds]
+    | cons p ps ih => simp [scaleDynKinds, ih]
+  · induction ps with
+    | nil => intro i p h; simp at h
+    | cons p0 ps ih =>
+      intro i p h
+      cases i with
+      | zero => simp only [List.getElem?_cons_zero, Option.some.injEq] at h; simp [scaleDynKinds, h]
+      | succ j => simp only [List.getElem?_cons_succ] at h; simp only [scaleDynKinds, List.getElem?_cons_succ]; exact ih j p h
 
 end C19
